@@ -8,6 +8,7 @@ same key.  A schedule found is replayed on real threads under a `sys.settrace` l
 
 from __future__ import annotations
 
+import os
 import types
 from typing import Any, Dict, List, Tuple
 
@@ -217,8 +218,132 @@ def worker(task: Tuple) -> Dict[str, Any]:
     return res
 
 
+HELPERS = {
+    # helper -> (setup, expression both threads evaluate)
+    "Unit._multiply": ("A, B = measured.Length.unit('c20-ha', 'c20-ha'), measured.Time.unit('c20-hb', 'c20-hb')\n"
+                       "_ = (A.dimension * B.dimension, A.prefix * B.prefix)", "A * B"),
+    "Unit._divide": ("A, B = measured.Length.unit('c20-hc', 'c20-hc'), measured.Time.unit('c20-hd', 'c20-hd')\n"
+                     "_ = (A.dimension / B.dimension, A.prefix / B.prefix)", "A / B"),
+    "Dimension._multiply": ("A, B = measured.Length**11, measured.Time**13", "A * B"),
+    "Dimension._divide": ("A, B = measured.Length**17, measured.Time**19", "A / B"),
+}
+NOT_SCRATCH = ("_known", "_by_name", "_by_symbol", "_base", "_fundamental")
+
+HELPER_SNAPSHOT = r"""
+import json, sys, types
+import measured, measured.conversions, measured.formatting
+def shared_containers():
+    out = {}
+    owners = [measured, measured.conversions, measured.formatting] + [
+        v for v in vars(measured).values() if isinstance(v, type) and v.__module__.startswith('measured')]
+    for o in owners:
+        for name, val in list(vars(o).items()):
+            if isinstance(val, (dict, list, set)) and not name.startswith('__') and name not in NOT_SCRATCH:
+                out[f"{getattr(o, '__name__', o)}.{name}"] = val
+    return out
+def fingerprint(c):
+    return {k: (len(v), repr(sorted(map(repr, v)))[:2000]) for k, v in c.items()}
+"""
+
+
+def helper_replay(helper: str, k: int) -> str:
+    setup, expr = HELPERS[helper]
+    cls, meth = helper.split(".")
+    return families.REPLAY_IMPORTS + f"""import threading
+{setup}
+fn = getattr(measured.{cls}, {meth!r})
+code = getattr(fn, '__wrapped__', fn).__code__     # the memoised helper's own body
+K = {k}                                            # thread A is held after K of its lines
+hold, resume = threading.Event(), threading.Event()
+count = [0]
+def tracer(frame, event, arg):
+    if event == 'call' and frame.f_code is code:
+        def local(frame, event, arg):
+            if event == 'line':
+                count[0] += 1
+                if count[0] == K + 1:
+                    hold.set(); resume.wait(30)
+            return local
+        return local
+    return None
+res = {{}}
+def run_a():
+    sys.settrace(tracer)
+    try:
+        res['a'] = {expr}
+    finally:
+        sys.settrace(None); hold.set()
+def run_b():
+    res['b'] = {expr}
+ta = threading.Thread(target=run_a); ta.start()
+hold.wait(30)
+tb = threading.Thread(target=run_b); tb.start(); tb.join(30)
+resume.set(); ta.join(30)
+later = {expr}
+print('thread A:', repr(res.get('a'))[:120]); print('thread B:', repr(res.get('b'))[:120]); print('later   :', repr(later)[:120])
+if not (res.get('a') is res.get('b') is later):
+    print('REPRODUCED: threads evaluating the same expression obtained different objects'); sys.exit(1)
+sys.exit(0)
+"""
+
+
+def helper_side_condition(rep: report.Report) -> None:
+    """The memoised multiply / divide helpers may run concurrently for the same operands
+    (lru_cache does not serialise misses): they must not use shared mutable state other than the
+    intern tables.  Every dict / list / set bound at class or module level in the package is
+    fingerprinted around a call of the helper's own body; one that changed is working state
+    shared between threads, and a one-preemption schedule through the helper is then searched
+    on real threads for the replay."""
+    import json
+    import subprocess
+
+    for helper, (setup, expr) in HELPERS.items():
+        cls, meth = helper.split(".")
+        code = (families.REPLAY_IMPORTS + f"NOT_SCRATCH = {NOT_SCRATCH!r}\n" + HELPER_SNAPSHOT + setup + f"""
+fn = getattr(measured.{cls}, {meth!r})
+body = getattr(fn, '__wrapped__', fn)
+c = shared_containers()
+before = fingerprint(c)
+r = body(A, B)
+after = fingerprint(c)
+import dis
+lines = len(set(l for _, l in dis.findlinestarts(body.__code__)))
+print(json.dumps({{"changed": sorted(k for k in before if before[k] != after[k]), "inspected": len(c), "lines": lines}}))
+""")
+        p = subprocess.run([report.REPO_PY, "-c", code], capture_output=True, text=True, timeout=120, cwd="/")
+        if p.returncode != 0:
+            raise symnum.HarnessError(f"helper snapshot for {helper} failed: {p.stderr[-400:]}")
+        info = json.loads(p.stdout.strip().splitlines()[-1])
+        name = (f"{helper}: leaves every shared container ({info['inspected']} dicts/lists/sets at class or module "
+                f"level, intern tables and registries aside) as it found it")
+        if not info["changed"]:
+            rep.ob("unsat", name, ("helper", helper))
+            continue
+        found = None
+        for k in range(1, info["lines"] + 2):
+            tmp = os.path.join(report.REPLAY_DIR, "_c20_probe.py")
+            os.makedirs(report.REPLAY_DIR, exist_ok=True)
+            with open(tmp, "w") as f:
+                f.write("import sys\n" + helper_replay(helper, k))
+            okr, _ = report.run_replay(tmp)
+            os.remove(tmp)
+            if okr:
+                found = k
+                break
+        if found is None:
+            rep.ob("unknown", name + f" -- changed: {info['changed']}; no one-preemption schedule shows different "
+                                    f"objects", ("helper", helper))
+            continue
+        rep.ob("sat", name, ("helper", helper))
+        rep.violation(f"C20:helper-shared-state:{helper}", f"{helper} works in shared state {info['changed']}: with "
+                      f"thread A held after {found} line(s) of the helper while thread B evaluates the same "
+                      f"expression, the two obtain different objects", helper_replay(helper, found))
+    rep.functions.update(f"measured.{h}" for h in HELPERS)
+
+
 def main(tier: str, selftest_cases: int = 0) -> int:
     rep = report.Report(PID, tier, "model_checking")
+    helper_side_condition(rep)
     threads = [2] if tier == "quick" else [2, 3]
     tasks = [(c, t) for c in SETUP for t in threads]
     results = par.run("props.c20", "worker", tasks)
